@@ -17,10 +17,11 @@ import PPLV.Lin.Model
   template over (`PSET`): concretisation `γ`, and one field per member function used, each with a
   soundness hypothesis.
 * `wrapAssignG fix d cfg P` — transliteration of `Implementation::wrap_assign`, `wrap_assign_ind`,
-  `wrap_assign_col`.  `fix = false` is the code as written; `fix = true` repairs the branch in which
-  collective wrapping becomes too complex at a variable `x` (as written, `x` itself is then neither
-  translated nor given the full range; the repaired code sends it to `set_full_range`).  The second
-  component of the result is a ghost flag: that unrepaired branch was executed.
+  `wrap_assign_col`.  `fix = true` (`wrapAssign`) is the code with the repair of KF-C17-3, `fix = false`
+  (`wrapAssignBeforeFix`) the code before it: when collective wrapping becomes too complex at a variable
+  `x`, `x` itself was neither translated nor given the full range; the repair sends it to
+  `set_full_range`.  The second component of the result is a ghost flag: the unrepaired branch was
+  executed.  The check measures on every run which variant the library implements.
   `allZeroesAsRead` is `expression().all_zeroes(vars)` as `wrap_assign_ind` executes it (with `vars`
   beyond the space dimension of `*cs_p`, where it reads the ε coefficient of strict rows).  The model is
   validated against the real template on every run: the harness instantiates
@@ -293,13 +294,15 @@ def wrapAssignG (fix : Bool) (d : Dom) (cfg : WrapCfg) (P : d.D) : d.D × Bool :
       else wrapCol d cfg s.dims s.trs (d.botLike s.ps) s.ps
     (d.refineAll (refineGuard d cfg ps) s.frb, s.tripped)
 
-/-- the code as written -/
-def wrapAssign (d : Dom) (cfg : WrapCfg) (P : d.D) : d.D := (wrapAssignG false d cfg P).1
-/-- the ghost flag of the code as written: collective wrapping became too complex at a variable that
-    was then left unwrapped -/
+/-- `Implementation::wrap_assign` with the repair of KF-C17-3 (fixes/fix_c17_wrap_collective_too_complex.diff:
+    `goto set_full_range` for the variable at which collective wrapping becomes too complex).  Which of
+    the two variants the library implements is measured by the check on every run (symbolic traces). -/
+def wrapAssign (d : Dom) (cfg : WrapCfg) (P : d.D) : d.D := (wrapAssignG true d cfg P).1
+/-- the variant before that repair: the variable is left unwrapped -/
+def wrapAssignBeforeFix (d : Dom) (cfg : WrapCfg) (P : d.D) : d.D := (wrapAssignG false d cfg P).1
+/-- the ghost flag of the variant before the repair: collective wrapping became too complex at a
+    variable that was then left unwrapped -/
 def wrapTrips (d : Dom) (cfg : WrapCfg) (P : d.D) : Bool := (wrapAssignG false d cfg P).2
-/-- the repaired code -/
-def wrapAssignFixed (d : Dom) (cfg : WrapCfg) (P : d.D) : d.D := (wrapAssignG true d cfg P).1
 
 /-! ## executable forms used by the driver -/
 
@@ -406,22 +409,27 @@ def Itv.hiGe : Option (Rat × Bool) → Option (Rat × Bool) → Bool
   | some (a, ao), some (b, bo) => decide (b < a) || (decide (a = b) && (!ao || bo))
 def Itv.contains (J I : Itv) : Bool := I.isEmpty || (Itv.loLe J.lo I.lo && Itv.hiGe J.hi I.hi)
 
-/-- `rational_quadrant_itv`: `[min_value, max_value + 1)`; an interval type that cannot store open
-    boundaries (`storeOpen = false`, e.g. `Z_Box`) keeps the LESS_THAN bound as `<= max_value + 1` -/
-def rationalQuadrant (storeOpen : Bool) (r : Repn) (w : Nat) : Itv :=
-  ⟨some (((minValue r w : Int) : Rat), false), some (((maxValue r w + 1 : Int) : Rat), storeOpen)⟩
+/-- `rational_quadrant_itv`: `[min_value, max_value + 1)` for an interval type that stores open
+    boundaries.  For one that cannot (`storeOpen = false`, e.g. `Z_Box`): the integer quadrant
+    `[min_value, max_value]` (`kf10 = false`, fixes/fix_c17_box_wrap_undefined_closed_bounds.diff); before
+    that repair (`kf10 = true`) the LESS_THAN bound was kept as `<= max_value + 1` (KF-C17-10).  The
+    check measures which variant the library implements. -/
+def rationalQuadrant (storeOpen kf10 : Bool) (r : Repn) (w : Nat) : Itv :=
+  if storeOpen then ⟨some (((minValue r w : Int) : Rat), false), some (((maxValue r w + 1 : Int) : Rat), true)⟩
+  else if kf10 then ⟨some (((minValue r w : Int) : Rat), false), some (((maxValue r w + 1 : Int) : Rat), false)⟩
+  else ⟨some (((minValue r w : Int) : Rat), false), some (((maxValue r w : Int) : Rat), false)⟩
 
 def mapIdxFrom (f : Nat → Itv → Itv) : Nat → List Itv → List Itv
   | _, [] => []
   | i, I :: Is => f i I :: mapIdxFrom f (i + 1) Is
 
 /-- the three loops of the `cs_p == nullptr` branch of `Box::wrap_assign` (non-empty box) -/
-def boxWrap (strictTest storeOpen : Bool) (cfg : WrapCfg) (B : List Itv) : List Itv :=
+def boxWrap (strictTest storeOpen kf10 : Bool) (cfg : WrapCfg) (B : List Itv) : List Itv :=
   mapIdxFrom (fun i I =>
     if i ∈ cfg.vars then
       match cfg.o with
       | .wraps => ivWrap strictTest I cfg.w cfg.r (rangeItv cfg.r cfg.w)
-      | .undefined => if (rationalQuadrant storeOpen cfg.r cfg.w).contains I then I else rangeItv cfg.r cfg.w
+      | .undefined => if (rationalQuadrant storeOpen kf10 cfg.r cfg.w).contains I then I else rangeItv cfg.r cfg.w
       | .impossible => I.inter (rangeItv cfg.r cfg.w)
     else I) 0 B
 
